@@ -61,6 +61,7 @@ def _tables(U):
     g = dict(transform_ident=ident, transform_odd=odd)
     tr = U.fn(F_DK, "get_transform_TR", globs=g, model=False, rewrite_comps=False)
     inv = U.fn(F_DK, "get_transform_Inv", globs=g, model=False, rewrite_comps=False)
+    U.siblings(F_DK, [tr, inv], globs=g)
     made = []
 
     class M:
@@ -274,6 +275,7 @@ def formula_world(U):
     assemble(U, F_COV, ["Omega", "DerOmega", "Der3E", "Hamiltonian", "Velocity", "Spin", "DerSpin", "Morb_H", "Morb_Hpm", "morb", "SpinVelocity"], reg, g)
     tr = U.fn(F_DK, "get_transform_TR", globs=dict(transform_ident=TI, transform_odd=TO), model=False, rewrite_comps=False)
     inv = U.fn(F_DK, "get_transform_Inv", globs=dict(transform_ident=TI, transform_odd=TO), model=False, rewrite_comps=False)
+    U.siblings(F_DK, [tr, inv], globs=dict(transform_ident=TI, transform_odd=TO))
     fns = types.SimpleNamespace(Matrix_ln=reg["Matrix_ln"], Matrix_GenDer_ln=reg["Matrix_GenDer_ln"], covariant=types.SimpleNamespace(Dcov=reg["Dcov"]))
     DK = U.klass(F_DK, "Data_K", globs=dict(np=NP, formula=fns, get_transform_TR=tr, get_transform_Inv=inv, transform_ident=TI, transform_odd=TO, cached_einsum=ce),
                  rewrite_comps=False, only=("covariant", "V_covariant", "Dcov", "dEig_inv", "D_H"))
